@@ -62,7 +62,7 @@ func C01(c *Ctx) {
 	r.MinRule("C01-c", 18)
 	c01dLowering(c)
 	basicLatinCaseClosure(c, "C01-d")
-	builderPairing(c, "C01-d")
+	builderPairingN(c, "C01-d")
 }
 
 // c01a: fail => pt=Entry, counters balanced.
@@ -696,62 +696,54 @@ func c01dLowering(c *Ctx) {
 		return
 	}
 	bp := g.Pkg("builder")
-	for _, it := range []struct{ fn, lowerCall, flag string }{
-		{"writeLitMatcher", "strings.ToLower", "IgnoreCase"},
-		{"writeCharClassMatcher", "unicode.ToLower", "IgnoreCase"},
+	nc := c.builderNorm()
+	for _, it := range []struct {
+		fn   string
+		keys []string
+	}{
+		{"writeLitMatcher", []string{"val"}},
+		{"writeCharClassMatcher", []string{"chars", "ranges"}},
 	} {
 		fd := load.FuncDecl(bp, "builder", it.fn)
 		if fd == nil {
 			r.Fatal("anchor builder.%s not found", it.fn)
 			continue
 		}
-		param := fd.Type.Params.List[0].Names[0].Name
-		// every lowering call sits in the then-arm of `if <param>.IgnoreCase` whose else-arm emits the raw value,
-		// and the emitted ignoreCase: flag is <param>.IgnoreCase.
-		nLower, okLower := 0, true
-		var stack []ast.Node
-		ast.Inspect(fd, func(n ast.Node) bool {
-			if n == nil {
-				stack = stack[:len(stack)-1]
-				return true
+		b, x := recvName(fd), firstParam(fd)
+		var bad []string
+		nLowered, nRaw, flagOK := 0, 0, false
+		for _, p := range nc.normPaths(fd) {
+			if p.holds(x + "==nil") {
+				continue
 			}
-			stack = append(stack, n)
-			ce, ok := n.(*ast.CallExpr)
-			if !ok || callName(ce) != it.lowerCall {
-				return true
-			}
-			// innermost enclosing if
-			var is *ast.IfStmt
-			for k := len(stack) - 1; k >= 0 && is == nil; k-- {
-				if x, ok := stack[k].(*ast.IfStmt); ok {
-					is = x
+			_, kvs, _ := keyValues(emissions(p, b))
+			for _, kv := range kvs {
+				if kv.Key == "ignoreCase" {
+					flagOK = kv.Val == x+".IgnoreCase"
+					if !flagOK {
+						bad = append(bad, "the ignoreCase flag is emitted from "+kv.Val)
+					}
+				}
+				if !containsStr(it.keys, kv.Key) {
+					continue
+				}
+				lowered := strings.Contains(kv.Val, "ToLower(")
+				folded := containsStr(kv.Facts, x+".IgnoreCase")
+				raw := containsStr(kv.Facts, "!"+x+".IgnoreCase")
+				switch {
+				case lowered && folded:
+					nLowered++
+				case !lowered && raw:
+					nRaw++
+				case lowered:
+					bad = append(bad, "member of "+kv.Key+" lowered although the node does not ignore case (facts: "+strings.Join(kv.Facts, " ")+")")
+				default:
+					bad = append(bad, "member of "+kv.Key+" emitted raw although the node may ignore case (facts: "+strings.Join(kv.Facts, " ")+"): the runtime compares the lower-cased input with it")
 				}
 			}
-			if is == nil || exprStr(nil, is.Cond) != param+"."+it.flag || !contains(is.Body, ce.Pos()) || is.Else == nil {
-				okLower = false
-				return true
-			}
-			nLower++
-			return true
-		})
-		total := 0
-		ast.Inspect(fd, func(n ast.Node) bool {
-			if ce, ok := n.(*ast.CallExpr); ok && callName(ce) == it.lowerCall {
-				total++
-			}
-			return true
-		})
-		flagOK := false
-		ast.Inspect(fd, func(n ast.Node) bool {
-			if ce, ok := n.(*ast.CallExpr); ok && len(ce.Args) == 2 {
-				if bl, ok := ce.Args[0].(*ast.BasicLit); ok && strings.Contains(bl.Value, "ignoreCase: %t") && exprStr(nil, ce.Args[1]) == param+"."+it.flag {
-					flagOK = true
-				}
-			}
-			return true
-		})
-		r.Check(nLower >= 1 && nLower == total && okLower && flagOK, "C01-d", "G.builder."+it.fn+":lower-iff-IgnoreCase", "", g.Where(fd.Pos()),
-			fmt.Sprintf("%d lowering sites, each in the then-arm of if %s.%s with a raw else-arm; flag emitted from the same field", nLower, param, it.flag),
-			fmt.Sprintf("lowering sites=%d (guarded %d, well-formed=%t), ignoreCase flag emitted from %s.%s=%t", total, nLower, okLower, param, it.flag, flagOK))
+		}
+		r.Check(len(bad) == 0 && nLowered >= 1 && nRaw >= 1 && flagOK, "C01-d", "G.builder."+it.fn+":lower-iff-IgnoreCase", "", g.Where(fd.Pos()),
+			fmt.Sprintf("%d lowered emissions under IgnoreCase, %d raw ones otherwise; flag emitted from the same field", nLowered, nRaw),
+			fmt.Sprintf("lowered=%d raw=%d flag-from-field=%t %s", nLowered, nRaw, flagOK, strings.Join(uniq(bad), "; ")))
 	}
 }
